@@ -213,7 +213,7 @@ impl L4Deserialize for CapDeserializer {
 fn gen_doc(rng: &mut Rng, allow_none_rate: bool) -> Doc {
     let napp = rng.range(1, 3) as usize;
     let appenders = (0..napp)
-        .map(|_| AppSpec { filters: if rng.chance(1, 4) { vec![FilterSpec::Threshold { level: rng.range(1, 5) as u8 }] } else { vec![] }, fail_num: 0, fail_seed: 0, reenter: None })
+        .map(|_| AppSpec { filters: if rng.chance(1, 4) { vec![FilterSpec::Threshold { level: rng.range(1, 5) as u8 }] } else { vec![] }, fail_num: 0, fail_seed: 0, reenter: None, render: None })
         .collect();
     let pick = |rng: &mut Rng| -> Vec<usize> {
         let k = rng.weighted(&[1, 5, 2]);
